@@ -201,12 +201,28 @@ fn reschedule(me: usize, state: St, site: &'static str) {
         // nobody can run: deadlock (exact under token passing: lock states cannot change while
         // nobody runs)
         let report = describe(&g);
+        let blocked_sites: std::collections::BTreeSet<&'static str> = g
+            .threads
+            .iter()
+            .filter(|t| matches!(t.state, St::BlockedLock { .. }))
+            .map(|t| t.last_site)
+            .collect();
         drop(g);
         let parallel = !INLINE_SPAWN.load(std::sync::atomic::Ordering::SeqCst);
         if parallel {
             run::fatal(Violation::new(
                 "parallel-import-tasks",
                 format!("with the import tasks of one importer running in parallel: [deadlock] no logical thread can make progress: {}", report),
+            ));
+        }
+        if ANCESTOR_HANDLES.load(std::sync::atomic::Ordering::SeqCst)
+            && blocked_sites.contains("mark_child_roots.context")
+            && (blocked_sites.contains("can_share_values_with.context") || blocked_sites.contains("thread.context"))
+        {
+            // recorded finding: see known_findings.json
+            run::fatal(Violation::new(
+                "deadlock-collect-vs-ancestor-handle",
+                format!("lock order inversion: an ancestor collecting (it holds its own context and locks the context of every descendant) while a descendant, holding its own context, needs the ancestor's context to use a value the ancestor owns (handle pushed as an argument, channel send): {}", report),
             ));
         }
         run::fatal(Violation::new("deadlock", format!("no logical thread can make progress: {}", report)));
@@ -391,6 +407,9 @@ pub fn run_all() -> bool {
 
 /// When set, a spawned task runs to completion on the logical thread that spawned it (the import
 /// tasks of one importer are then serialised; different importers still run concurrently)
+/// The workload hands values owned by an ancestor thread to descendants running on other logical
+/// threads while the ancestor itself runs (classification of the recorded lock order inversion)
+pub static ANCESTOR_HANDLES: std::sync::atomic::AtomicBool = std::sync::atomic::AtomicBool::new(false);
 pub static INLINE_SPAWN: std::sync::atomic::AtomicBool = std::sync::atomic::AtomicBool::new(false);
 
 /// `futures::task::Spawn` seam: spawned futures become logical threads
